@@ -1,6 +1,6 @@
 From Coq Require Extraction.
 From Coq Require Import ExtrOcamlBasic.
 From OlaBase Require Import Bytes.
-From C17 Require Import Sem Progs.
+From C17 Require Import Sem Progs FutPoll.
 Extraction Language OCaml.
-Extraction "model.ml" io_witness N.div_eucl run P P_old init_exec init_fut_raw init_fut_copy init_ss init_execre init_periodic init_pool init_locker init_ssd init_prefs init_prefs2 init_prefsj init_term init_poolre init_fut_asg.
+Extraction "model.ml" io_witness N.div_eucl run P P_old init_exec init_fut_raw init_fut_copy init_ss init_execre init_periodic init_pool init_locker init_ssd init_prefs init_prefs2 init_prefsj init_term init_poolre init_fut_asg P2 init_fut_poll.
